@@ -148,12 +148,17 @@ fn cargo_cmd(dir: &Path, target: &Path, shim: Option<(&Path, &RunCfg)>) -> Comma
     // ambient variables of whoever started the check (RUST_BACKTRACE, RUST_LOG, ...) must
     // not decide what the reference run looks like
     c.env_clear();
-    for k in ["PATH", "HOME", "CARGO_HOME", "RUSTUP_HOME", "RUSTUP_TOOLCHAIN", "TMPDIR", "LD_LIBRARY_PATH"] {
+    for k in ["PATH", "HOME", "CARGO_HOME", "RUSTUP_HOME", "RUSTUP_TOOLCHAIN", "LD_LIBRARY_PATH"] {
         if let Ok(v) = std::env::var(k) {
             c.env(k, v);
         }
     }
     c.env("CARGO_NET_OFFLINE", "true");
+    // a temp dir of its own, next to the crate: empty for the first run of a check (cold),
+    // as the earlier runs left it for the later ones (warm)
+    let tmp = dir.join("tmp");
+    let _ = std::fs::create_dir_all(&tmp);
+    c.env("TMPDIR", &tmp);
     c.env("CARGO_TARGET_DIR", target);
     c.env("RUSTC_BOOTSTRAP", "1");
     c.env("CARGO_BUILD_JOBS", "1");
@@ -237,8 +242,21 @@ fn render_acc_mode(dir: &Path, target: &Path, shim: &Path, rc: &RunCfg, hygiene:
 }
 
 fn setup_crate(dir: &Path, repo: &Path, backend: Backend, items: &[String]) -> Result<(), String> {
+    setup_crate_as(dir, repo, backend, &crate_source(items), false)
+}
+
+/// `alt = true`: the same source as a different *package* (name, version, edition, authors,
+/// manifest directory): everything cargo tells rustc -- and thereby a proc macro -- about the
+/// crate being compiled (CARGO_PKG_*, CARGO_CRATE_NAME, CARGO_MANIFEST_DIR, --edition,
+/// --crate-name) differs, the derive inputs do not
+fn setup_crate_as(dir: &Path, repo: &Path, backend: Backend, lib_rs: &str, alt: bool) -> Result<(), String> {
+    let (name, version, edition, extra) = if alt { ("tier-r-alt-pkg", "9.9.9", "2018", "authors = [\"Somebody Else <else@example.org>\"]\ndescription = \"another crate\"\n") } else { ("tier-r", "0.0.0", "2021", "") };
     let manifest = format!(
-        "[package]\nname = \"tier-r\"\nversion = \"0.0.0\"\nedition = \"2021\"\n\n[workspace]\n\n[lib]\npath = \"src/lib.rs\"\n\n[dependencies]\no2o = {{ path = \"{}\", default-features = false, features = [\"{}\"] }}\n",
+        "[package]\nname = \"{}\"\nversion = \"{}\"\nedition = \"{}\"\n{}\n[workspace]\n\n[lib]\npath = \"src/lib.rs\"\n\n[dependencies]\no2o = {{ path = \"{}\", default-features = false, features = [\"{}\"] }}\n",
+        name,
+        version,
+        edition,
+        extra,
         repo.display(),
         backend.tag()
     );
@@ -250,7 +268,7 @@ fn setup_crate(dir: &Path, repo: &Path, backend: Backend, items: &[String]) -> R
             std::fs::copy(&lock, dir.join("Cargo.lock")).map_err(|e| format!("copy Cargo.lock: {}", e))?;
         }
     }
-    write_if_changed(&dir.join("src/lib.rs"), &crate_source(items));
+    write_if_changed(&dir.join("src/lib.rs"), lib_rs);
     Ok(())
 }
 
@@ -354,6 +372,7 @@ pub fn run(cfg: &Cfg, corpus: &Corpus) -> Result<TierResult, String> {
             let dir = base.join(format!("{}-{}", backend.tag(), kind));
             let target = base.join(format!("target-{}", backend.tag()));
             setup_crate(&dir, &cfg.repo, backend, items)?;
+            let _ = std::fs::remove_dir_all(dir.join("tmp"));
             // dependencies (incl. the o2o-macros dylib) are built without the shim, so that a
             // fixed entropy stream never meets concurrently running rustc processes
             let _ = cargo_cmd(&dir, &target, None).args(["build", "--offline", "-q"]).output();
@@ -391,10 +410,13 @@ pub fn run(cfg: &Cfg, corpus: &Corpus) -> Result<TierResult, String> {
                 let original = crate_source(items);
                 let order: Vec<usize> = (0..items.len()).rev().collect();
                 let reversed = crate_source_ordered(items, &order);
-                write_if_changed(&dir.join("src/lib.rs"), &reversed);
+                // ... compiled as a *different package* (other name, version, edition, manifest
+                // directory), sharing the temp dir of the runs above
+                let alt_dir = base.join(format!("{}-{}-alt", backend.tag(), kind));
+                setup_crate_as(&alt_dir, &cfg.repo, backend, &reversed, true)?;
+                let _ = std::fs::remove_dir_all(alt_dir.join("tmp"));
                 let rc = &runs[runs.len() - 1];
-                let r = if kind == "rej" { render_rej(&dir, &target, &shim, rc) } else { render_acc_mode(&dir, &target, &shim, rc, false) };
-                write_if_changed(&dir.join("src/lib.rs"), &original);
+                let r = if kind == "rej" { render_rej(&alt_dir, &target, &shim, rc) } else { render_acc_mode(&alt_dir, &target, &shim, rc, false) };
                 let r = r?;
                 compiles += 1;
                 // (for `acc` both layouts are rendered without hygiene annotations, under the same run configuration)
@@ -412,7 +434,7 @@ pub fn run(cfg: &Cfg, corpus: &Corpus) -> Result<TierResult, String> {
                     let _ = std::fs::create_dir_all(cfg.verif.join("replays"));
                     let v = json!({
                         "property": "C19", "kind": "rustc_tier", "permuted": true,
-                        "what": "real cargo/rustc with the real o2o-macros dylib expanded the same items differently when their source order in the crate was reversed (all derives of a crate run in one rustc process, in source order)",
+                        "what": "real cargo/rustc with the real o2o-macros dylib expanded the same items differently when the crate was compiled as another package (name, version, edition, manifest directory) with its modules in reversed source order (all derives of a crate run in one rustc process, in source order)",
                         "backend": backend.tag(), "crate_kind": kind, "repo": cfg.repo.to_string_lossy(),
                         "lib_rs": original, "lib_rs_permuted": reversed,
                         "reference_run": runcfg_json(&runs[0]), "faulty_run": runcfg_json(rc),
@@ -423,7 +445,7 @@ pub fn run(cfg: &Cfg, corpus: &Corpus) -> Result<TierResult, String> {
                 }
             }
             let lines = reference.as_ref().map(|r| r.lines().count()).unwrap_or(0);
-            summary.push(json!({"backend": backend.tag(), "crate": kind, "items": items.len(), "runs": runs.len(), "runs_equal_to_first": equal, "reversed_source_order_equal_module_by_module": permuted_equal, "rendering_lines": lines}));
+            summary.push(json!({"backend": backend.tag(), "crate": kind, "items": items.len(), "runs": runs.len(), "runs_equal_to_first": equal, "other_package_identity_and_reversed_source_order_equal_module_by_module": permuted_equal, "rendering_lines": lines}));
         }
     }
     Ok(TierResult {
@@ -460,9 +482,11 @@ pub fn replay(cfg: &Cfg, v: &Value, path: &Path) -> i32 {
     let rb = if permuted {
         let original = v["lib_rs"].as_str().unwrap_or("").to_string();
         let reversed = v["lib_rs_permuted"].as_str().unwrap_or("").to_string();
-        write_if_changed(&dir.join("src/lib.rs"), &reversed);
-        let r = f(&b);
-        write_if_changed(&dir.join("src/lib.rs"), &original);
+        let alt_dir = base.join(format!("{}-{}-alt", backend.tag(), kind));
+        if setup_crate_as(&alt_dir, &cfg.repo, backend, &reversed, true).is_err() {
+            return 2;
+        }
+        let r = if kind == "rej" { render_rej(&alt_dir, &target, &shim, &b) } else { render_acc_mode(&alt_dir, &target, &shim, &b, false) };
         match (ra, r) {
             (Ok(x), Ok(y)) => {
                 let (x, y) = if kind == "rej" { (normalise_rej(&x, &original), normalise_rej(&y, &reversed)) } else { (normalise_acc(&x), normalise_acc(&y)) };
